@@ -117,14 +117,15 @@ Definition new_n (o : top) (ns : list Z) : list Z :=
   end.
 
 (* copying form: the result goes through the constructor, i.e. through the setter again;
-   in-place form: region and subregions are transformed where they are *)
+   in-place form: the step is first tried on a copy (dry run: a refused step leaves the mesh
+   untouched), then region and subregions are transformed where they are *)
 Definition transform_tol (tol : Q) (inplace : bool) (o : top) (m : mesh) : res mesh :=
   let c := center (reg m) in
   do r' <- transform_region o c (reg m);
   do subs' <- mapres (fun nr => do s <- transform_region o c (snd nr); OK (fst nr, s)) (subs m);
-  if inplace then OK (mkMesh r' (new_n o (n m)) (bc m) subs')
-  else do m0 <- mk_mesh_n r' (new_n o (n m));
-       set_subregions_tol tol (mkMesh r' (new_n o (n m)) (bc m) []) subs'.
+  do m0 <- mk_mesh_n r' (new_n o (n m));
+  do mc <- set_subregions_tol tol (mkMesh r' (new_n o (n m)) (bc m) []) subs';
+  if inplace then OK (mkMesh r' (new_n o (n m)) (bc m) subs') else OK mc.
 
 (* ---------- selections ---------- *)
 (* _sel_convert_input for one value: range test without tolerance, then the centre of the cell
